@@ -1,4 +1,5 @@
 import MontePyVerif.Model.Wrap
+import MontePyVerif.Gen.CommentProbe
 import MontePyVerif.Spec.Text
 /-! # C10 — written lines obey MCNP's physical line rules without changing content -/
 namespace MontePyVerif.C10
@@ -14,6 +15,14 @@ theorem C10_tables :
     -- the configuration Model/Wrap.lean mirrors (a change of the TextWrapper call re-opens this proof)
     Gen.wrapDropWhitespace = false ∧ Gen.wrapBreakOnHyphens = false ∧ Gen.wrapBreakLongWords = true ∧
     Gen.wrapExpandTabs = true ∧ Gen.wrapReplaceWhitespace = true := by decide
+
+set_option maxRecDepth 20000 in
+/-- C10_comment_probe — the model's comment-line test and the working tree's `MCNP_Object._is_comment_line` give the
+    same answer on every probe of the generated list (comment markers and data words that merely begin with c —
+    `c14`, `cf4`, `cut:n`, `ctme` … — with 0..5 leading blanks, followed by nothing, a blank, a letter or a digit).
+    The probe answers are measured on the code at every run (tools/extractors/c10_comment_probe.py): a change of the
+    code's test re-opens this proof. -/
+theorem C10_comment_probe : ∀ p ∈ Gen.commentLineProbes, isCommentLine p.1 = p.2 := by decide
 
 /-! ## the greedy-fill invariant of `_wrap_chunks` -/
 
